@@ -16,4 +16,7 @@ func init() {
 	addStages("C16", "fault_enumeration", []string{
 		"rsmcheck/sscrash enumerates crash points of the snapshotter / SSEnv / chunk receiver sequences below the NodeHost; import and NodeHost restart are left to the cluster engine",
 	}, Stage{Engine: "rsmcheck", Mode: "sscrash", BatchesQ: 16, BatchesT: 32, Par: 16, TimeoutQ: 600, TimeoutT: 3600})
+	addStages("C13", "exploration", []string{
+		"rsmcheck/payload: the decode step of the apply path (rsm.StateMachine, per-entry and batched) for plain, encoded and Snappy-encoded entries; the command bytes reaching the user state machine are compared with the proposed payloads",
+	}, Stage{Engine: "rsmcheck", Mode: "payload", BatchesQ: 16, BatchesT: 32, Par: 16, TimeoutQ: 600, TimeoutT: 3600})
 }
